@@ -86,7 +86,13 @@ type Pipe struct {
 
 	Written   int // bytes accepted from the writer
 	Delivered int // bytes handed to the reader side
+	// WMarks / DMarks: (cumulative byte count, simulated time) after each accepted write / delivery.
+	WMarks []Mark
+	DMarks []Mark
 	readerGone bool
+	finAt      time.Duration
+	finSeen    bool
+	rstAt      time.Duration
 }
 
 // Link is one simulated TCP connection.
@@ -132,6 +138,29 @@ type Net struct {
 	Dials, DialFails, Listens, ListenFails int
 	DialTimes                              []time.Duration
 	ListenTimes                            []time.Duration
+}
+
+// Mark is a (cumulative offset, time) pair.
+type Mark struct {
+	Off int
+	At  time.Duration
+}
+
+// WrittenAt returns the time at which cumulative byte off (1-based count) had been accepted from
+// the writer, or -1.
+func (p *Pipe) WrittenAt(off int) time.Duration { return markAt(p.WMarks, off) }
+
+// DeliveredAt returns the time at which cumulative byte off had been delivered to the reader side, or -1.
+func (p *Pipe) DeliveredAt(off int) time.Duration { return markAt(p.DMarks, off) }
+
+func markAt(ms []Mark, off int) time.Duration {
+	for _, m := range ms {
+		if m.Off >= off {
+			return m.At
+		}
+	}
+
+	return -1
 }
 
 // DialOutcome is what a dial attempt meets.
@@ -634,6 +663,7 @@ func (p *Pipe) enqueue(b []byte) {
 		return
 	}
 	p.Written += len(b)
+	p.WMarks = append(p.WMarks, Mark{p.Written, p.n.W.Now()})
 	if p.readerGone && p.sink == nil {
 		return // the other end has closed: bytes vanish
 	}
@@ -701,12 +731,15 @@ func (p *Pipe) arm() {
 		var onEOF func()
 		if s.fin {
 			p.eof = true
+			p.finAt = p.n.W.Now()
+			p.finSeen = true
 			p.rwait.wake()
 			onEOF = p.onEOF
 			p.n.W.Logf("deliver %s FIN", p.name)
 		} else {
 			p.infl -= len(s.data)
 			p.Delivered += len(s.data)
+			p.DMarks = append(p.DMarks, Mark{p.Delivered, p.n.W.Now()})
 			if p.sink != nil {
 				sink = p.sink
 				p.wwait.wake()
@@ -753,6 +786,7 @@ func (l *Link) Send(chunks ...Chunk) {
 		p.segs = append(p.segs, segment{data: append([]byte(nil), c.Data...), at: at})
 		p.infl += len(c.Data)
 		p.Written += len(c.Data)
+		p.WMarks = append(p.WMarks, Mark{p.Written, now})
 	}
 	p.last = at
 	p.arm()
@@ -784,6 +818,7 @@ func (l *Link) RST() {
 	l.Closed = true
 	for _, p := range []*Pipe{l.a2b, l.b2a} {
 		p.rst = true
+		p.rstAt = l.N.W.Now()
 		p.segs = nil
 		p.infl = 0
 		if p.ev != nil {
@@ -845,6 +880,24 @@ func (l *Link) ToPeer() *Pipe { return l.a2b }
 
 // ToLib returns the pipe carrying bytes towards the library end A.
 func (l *Link) ToLib() *Pipe { return l.b2a }
+
+// FinDeliveredAt returns when an orderly close reached this pipe's reader side (-1 = never).
+func (p *Pipe) FinDeliveredAt() time.Duration {
+	if !p.finSeen {
+		return -1
+	}
+
+	return p.finAt
+}
+
+// RstAt returns when the pipe was reset (-1 = never).
+func (p *Pipe) RstAt() time.Duration {
+	if !p.rst {
+		return -1
+	}
+
+	return p.rstAt
+}
 
 // Unread returns the number of bytes delivered to this pipe's reader but not read yet.
 func (p *Pipe) Unread() int { return len(p.rcv) }
